@@ -89,11 +89,19 @@ def rand_vals_row(rng, m, pn, ties):
     return row
 
 
-def rand_ties_row(rng, m, pn):
-    """well-formed row with ties: entry = 1 + number of strictly better entries; NaN with probability pn"""
+def rand_ties_row(rng, m, pn, dense=False):
+    """row with ties: competition numbering (entry = 1 + number of strictly better entries: 1,1,3) or, with dense=True, dense
+    numbering (entry = 1 + number of strictly better tie CLASSES: 1,1,2); NaN with probability pn"""
     keys = [None if rng.random() < pn else rng.randint(0, max(1, m // 2)) for _ in range(m)]
     present = [k for k in keys if k is not None]
+    if dense:
+        return [None if k is None else 1 + len(set(x for x in present if x < k)) for k in keys]
     return [None if k is None else 1 + sum(1 for x in present if x < k) for k in keys]
+
+
+def competition_numbered(row):
+    present = [x for x in row if x is not None]
+    return all(x == 1 + sum(1 for y in present if y < x) for x in present)
 
 
 def lines_for(it, res):
@@ -108,7 +116,10 @@ def lines_for(it, res):
     elif kind == "strictify":
         for prow, orow in zip(it["P"], res["out"]):
             m = len(prow)
-            L.append(" ".join(["strictify", str(m)] + [optn(x) for x in prow] + [optn(x) for x in orow] + ["1" if it["tb"] == "first" else "0"]))
+            # competition-numbered rows go through the full checker (incl. the rank block of every tie class), all others
+            # through the general one
+            op = "strictify" if competition_numbered(prow) else "strict2"
+            L.append(" ".join([op, str(m)] + [optn(x) for x in prow] + [optn(x) for x in orow] + ["1" if it["tb"] == "first" else "0"]))
     elif kind == "complete":
         mode = {"accept": 0, "first": 1, "random": 2}[it["tb"]]
         for prow, orow in zip(it["P"], res["out"]):
@@ -172,8 +183,8 @@ def judge(R, it, res, ans):
         if res.get("input_after") != [jrow(r) for r in it["P"]]:
             errs.append("input profile was modified")
         rel = "tie breaking: strict, preserves strict comparisons and the NaN pattern"
-        bad_lean = [a for a in ans if a != "ok 1 1"]
-        corr = "strictifyOkB accepts every output row (rows are well-formed: wfTiesB)"
+        bad_lean = [a for a in ans if a not in ("ok 1 1", "ok 1")]
+        corr = "strictifyOkB (competition-numbered rows) / strictOkB (any numbering) accepts every output row"
     elif kind == "complete":
         for prow, orow in zip(it["P"], res["out"]):
             m = len(prow)
@@ -274,7 +285,10 @@ def gen_items(R, count, big):
             # the API needs distinct values for a meaningful strict result only when ties are absent; ties are allowed (any order)
             items.append({"kind": kind, "vals": vals})
         elif kind == "strictify":
-            P = [rand_ties_row(R.rng, m, R.rng.choice([0, .3])) for _ in range(n)]
+            dense = R.rng.random() < 0.35
+            P = [rand_ties_row(R.rng, m, R.rng.choice([0, .3]), dense) for _ in range(n)]
+            if dense:
+                R.count("strictify:dense_tie_numbering")
             if all(v is None for row in P for v in row):
                 continue
             items.append({"kind": kind, "P": P, "tb": R.rng.choice(["first", "random"]), "seed": R.rng.randrange(10 ** 6)})
@@ -359,17 +373,33 @@ def run_items(R, items):
         judge(R, it, res, ans[a:b])
 
 
+def corpus():
+    import os
+    from harness.common import VERIF
+    path = os.path.join(VERIF, "corpus", "C18.jsonl")
+    return [json.loads(l) for l in open(path) if l.strip()] if os.path.exists(path) else []
+
+
 def run(R):
-    R.rule = ("valuation rows with ties and NaN (ordinal), well-formed rank rows with ties and NaN (tie breaking with first/random, completion with "
+    R.rule = ("valuation rows with ties and NaN (ordinal), rank rows with ties (competition numbering 1,1,3 and dense numbering 1,1,2) and NaN (tie breaking with first/random, completion with "
               "first/random/accept), uniform and normal generators over (low, high) / (mean, variance) and seeds on strict profiles with NaN and up to "
               "40 alternatives (numpy's unstable sort regime), the consistency predicate on consistent, tied, clearly inverted and random valuations; "
               "thorough adds ALL well-formed tie/NaN rows up to length 4. Each output row goes through the Lean checker / model.")
     R.assumptions = ["orders that numpy chooses among ties/NaNs are treated as arbitrary: outputs are judged by relation checkers proved sound for every order",
                      "generator draws are re-drawn by the harness from the same seed with the same numpy calls"]
-    items = gen_items(R, 10000 if R.thorough else 300, R.thorough)
+    items = corpus() + gen_items(R, 10000 if R.thorough else 300, R.thorough)
     if R.thorough:
         R.exhaustive = True
         items += gen_exhaustive()
+        # ... and all densely numbered rows up to length 4 (1,1,2 instead of 1,1,3)
+        for m in (2, 3, 4):
+            rows = set()
+            for keys in itertools.product([None, 0, 1, 2, 3][:m + 1], repeat=m):
+                present = [k for k in keys if k is not None]
+                rows.add(tuple(None if k is None else 1 + len(set(x for x in present if x < k)) for k in keys))
+            rows = [list(r) for r in sorted(rows, key=str) if any(v is not None for v in r)]
+            for tb in ("first", "random"):
+                items.append({"kind": "strictify", "P": rows, "tb": tb, "seed": m})
     run_items(R, items)
     for k in list(R.hist):
         if k.endswith("_sampled"):
